@@ -5,6 +5,7 @@ package main
 import (
 	"fmt"
 	"go/token"
+	"go/types"
 	"strings"
 
 	"golang.org/x/tools/go/ssa"
@@ -573,6 +574,24 @@ func (R *Run) ruleHeaderGate() {
 		}
 	}
 	R.check(orderOK && rsrc != nil, "header-gate", "hotline.DownloadHandler: order header → data → resource fork", P.ipos(data), "header before data before resource fork", "the parts of a download are not emitted in the order header, data fork, resource-fork header, resource fork")
+	// a resource-fork header that announces N bytes must be followed by the resource fork on every success path
+	if rsrcHdr != nil && rsrc != nil {
+		okHdr, ret := mustPassAfter(rsrcHdr.(ssa.Instruction), func(x ssa.Instruction) bool {
+			if x == rsrc.(ssa.Instruction) {
+				return true
+			}
+			// an error return after the header write failed is fine
+			if r, isRet := x.(*ssa.Return); isRet {
+				return !isSuccessReturn(r)
+			}
+			return false
+		})
+		pos := P.ipos(rsrcHdr)
+		if ret != nil {
+			pos = P.ipos(ret)
+		}
+		R.check(okHdr, "header-gate", "hotline.DownloadHandler: resource-fork header followed by its data", pos, "every success path after the MACR header copies the resource fork", "a success return is reachable after the resource-fork header (which announces the fork's size) without the resource fork having been sent: the client waits for bytes that never come")
+	}
 }
 
 // ruleReplyConsistency (C08): the download reply's size fields.
@@ -861,4 +880,112 @@ func (R *Run) ruleWalkFilterAgree() {
 			R.check(!prunes, "walk-filter-agree", fname(g)+": no pruning", P.pos(g.Pos()), "does not return SkipDir", "returns SkipDir/SkipAll: counter and walker would descend into different sub-trees")
 		}
 	}
+}
+
+// ruleSkipSendsOnce (C10): in the folder upload's item loop the action word written to the client carries the
+// variable next action; on the edge where that action equals DlFldrActionNextFile no further action word may
+// be written before the next item is read.
+func (R *Run) ruleSkipSendsOnce() {
+	P := R.P
+	fn := R.mustFn("hotline.UploadFolderHandler")
+	if fn == nil {
+		return
+	}
+	R.analysed(fname(fn))
+	next := int64(3)
+	if c := P.Hot.Const("DlFldrActionNextFile"); c != nil {
+		if v, ok := constInt(c.Value); ok {
+			next = v
+		}
+	}
+	rwc := fn.Params[0]
+	// writes of a 2-byte action word {0, x}
+	type aw struct {
+		call ssa.CallInstruction
+		val  ssa.Value // the second byte (nil = constant)
+		k    int64
+	}
+	var words []aw
+	for _, ci := range callsIn(fn) {
+		c := ci.Common()
+		if !(c.IsInvoke() && c.Method.Name() == "Write" && stripConv(c.Value) == ssa.Value(rwc)) {
+			continue
+		}
+		sl, ok := c.Args[0].(*ssa.Slice)
+		if !ok {
+			continue
+		}
+		a, ok := sl.X.(*ssa.Alloc)
+		if !ok {
+			continue
+		}
+		arr, ok := derefType(a.Type()).Underlying().(*types.Array)
+		if !ok || arr.Len() != 2 {
+			continue
+		}
+		w := aw{call: ci, k: -1}
+		for _, r := range *a.Referrers() {
+			if ia, ok := r.(*ssa.IndexAddr); ok {
+				if idx, ok := constInt(ia.Index); ok && idx == 1 {
+					for _, rr := range *ia.Referrers() {
+						if st, ok := rr.(*ssa.Store); ok {
+							if k, isC := constInt(st.Val); isC {
+								w.k = k
+							} else {
+								w.val = stripConv(st.Val)
+							}
+						}
+					}
+				}
+			}
+		}
+		words = append(words, w)
+	}
+	var variable *aw
+	for i := range words {
+		if words[i].val != nil {
+			variable = &words[i]
+		}
+	}
+	if variable == nil || len(words) < 3 {
+		R.und("skip-sends-once", fname(fn), P.pos(fn.Pos()), fmt.Sprintf("the item loop's action words were not recognised (%d found, one of them variable expected)", len(words)))
+		return
+	}
+	// edges on which the variable action equals "next file"
+	bad := ""
+	n := 0
+	factEdges(fn, func(e Edge, f Fact) {
+		if f.Kind != "eq" || !f.Holds {
+			return
+		}
+		k, ok := constInt(f.C)
+		if !ok || k != next || stripConv(f.V) != variable.val {
+			return
+		}
+		n++
+		// from the edge target, is another action-word write reachable before the item header is read again?
+		for _, w := range words {
+			if reachesWithout(e.To, 0, w.call.(ssa.Instruction), firstItemRead(fn, rwc)) {
+				bad = P.ipos(w.call)
+			}
+		}
+	})
+	R.check(n > 0 && bad == "", "skip-sends-once", fname(fn)+": skipped item", P.pos(fn.Pos()), "after answering 'next file' nothing more is written for that item",
+		"for an item the server answers with 'next file' (already complete) a second action word is written at "+bad+" before the next item header is read: the client takes it as the answer to the following item and every later answer is shifted by one")
+}
+
+// firstItemRead: the io.ReadFull that starts an item (first read of the connection inside the loop).
+func firstItemRead(fn *ssa.Function, rwc ssa.Value) ssa.Instruction {
+	for _, b := range fn.Blocks {
+		// a loop block: reaches itself
+		if !reachableFrom(b, nil)[b] {
+			continue
+		}
+		for _, ins := range b.Instrs {
+			if ci, ok := ins.(ssa.CallInstruction); ok && calleeName(ci.Common()) == "io.ReadFull" && stripConv(ci.Common().Args[0]) == rwc {
+				return ins
+			}
+		}
+	}
+	return nil
 }
